@@ -39,7 +39,9 @@ def build_request(rid):
     elif rid == 3:
         kw.update(analytic=True, z=zc, profiles=profc, halo=None)
     elif rid == 4:
-        kw.update(analytic=True, footprint=False, z=zc, profiles=profc, precision="double")
+        # as request 2 in everything that shapes the spectral arrays (source grid, modes, pad widths in cells), on a domain
+        # of twice the extent: whatever is derived from the cell size must not be taken from an earlier solve
+        kw.update(analytic=True, footprint=False, z=zc, profiles=profc, precision="double", domain=(320.0, 180.0), halo=80.0)
     elif rid == 5:
         kw.update(precision="double")
     elif rid == 6:
